@@ -443,4 +443,6 @@ def close(a, b, rtol=1e-7):
         return False
     if a != a or b != b:
         return False
+    if a in (float("inf"), float("-inf")) or b in (float("inf"), float("-inf")):
+        return a == b  # an infinite value is never "close" to a finite one (the tolerance itself would be infinite)
     return abs(a - b) <= rtol * max(1.0, abs(a), abs(b))
